@@ -53,6 +53,8 @@ def run(tier):
         d = "ansi" if i % 3 else rnd.choice(["mysql", "postgres", "sparksql", "snowflake", "bigquery", "tsql", "non-validating"])
         # non-reserved words are offered only to sqlfluff dialects: the legacy analyzer's lexer treats them as keywords (KF-30d territory)
         pool = tables + cols + ["Zq%d" % rnd.randrange(99), "QW_%d" % rnd.randrange(99)] + (rnd.sample(WORDS, 2) if d != "non-validating" else [])
+        if not common.is_core_for(d, tags):
+            d = "ansi"
         cases.append({"sql": sql, "dialect": d, "want": []})
         meta.append(("orig", i, None, tags, sql))
         modes = ["rename"] * (per - 2) + ["toggle_as", rnd.choice(["add_alias", "drop_alias"])]
